@@ -25,15 +25,15 @@ PROPERTY = "C44"
 LEVEL = "fault_enumeration"
 TECHNIQUE = "exhaustive enumeration of small simulated bus populations (device model with transport layer, programming mode, refusals, timeouts) against the real management procedures on a virtual-time loop; bus-log oracle"
 RULE = (
-    "address write/read: every multiset of 0..3 devices over address {target,a,b} x programming mode x connection behaviour {answers,refuses,silent} (1330 populations); "
+    "address write: every multiset of 0..3 (thorough: 0..4) devices over address {target,a,b} x programming mode x connection behaviour {answers,refuses,silent} (1330 / 7315 populations) x reply latency {20 ms, same loop iteration as the L_Data.con}; address read: 0..3 devices over {target,a} x programming mode x {answers,silent} x raise_if_multiple; "
     "serial read/write: every multiset of 0..3 devices over serial {asked,other} x address {target,a} x {honest, answers any serial read} (165 populations x 2 procedures); "
     "authorize2: all 256 (free level, client-key level) pairs + unknown key + refusing/silent device; "
     "non-trivial = at least one device reacts to the procedure (a device in programming mode or at the target address / a device answering the serial read / a device answering the authorization); distinct by construction"
 )
 LEVEL_TEXT = "All bus populations within the stated bounds are executed against the real procedures in virtual time; what was broadcast, who was restarted, what the procedures returned and the final device addresses are judged from the simulated bus log."
-LEVEL_NOTE = "The bus is the model in vk/simbus.py (KNX transport layer automaton per device, 20 ms reply latency after the L_Data.con, no frame loss); larger populations, lost frames and slow devices are outside the enumeration."
+LEVEL_NOTE = "The bus is the model in vk/simbus.py (KNX transport layer automaton per device, replies 20 ms after the L_Data.con or in the same loop iteration, no frame loss); larger populations, lost frames and slow devices are outside the enumeration."
 ASSUMPTIONS = [
-    "simulated devices follow 03_03_04 (T_Connect/T_Disconnect/numbered data + T_ACK) and answer the broadcast services of 03_05_02; replies arrive 20 ms (+2 ms per further frame) after the request was confirmed; nothing is lost",
+    "simulated devices follow 03_03_04 (T_Connect/T_Disconnect/numbered data + T_ACK) and answer the broadcast services of 03_05_02; replies arrive 20 ms (+2 ms per further frame) after the request was confirmed, or (address write, second schedule) in the very loop iteration that processes the L_Data.con; nothing is lost",
     "a 'silent' device ignores point-to-point frames but takes part in broadcasts; NM_IndividualAddress_Check cannot see it, so it does not count as 'already uses the address' nor in the collision clause",
     "interface stub confirms every frame; time.time() read by xknx.management.management is the virtual clock",
     "exceptions out of the receive path while the procedures run are C43's subject (counted in notes, not judged here)",
@@ -52,6 +52,16 @@ def _serial(i: int) -> bytes:
     return bytes([0, 0xFA, 0, 0, 0, i + 1])
 
 
+LATENCIES = {"20ms": (0.02, 0.002), "same-iteration": (0.0, 0.0)}
+_LAT = ["20ms"]  # current reply latency (set per case by the enumeration / replay)
+
+
+def _b(bucket: str) -> str:
+    """Buckets of the zero-latency schedule carry a suffix: replies processed in the loop iteration of the L_Data.con
+    expose a different root cause (frames arriving before the awaiting task resumed) than the 20 ms schedule."""
+    return bucket if _LAT[0] == "20ms" else bucket + ":replies-in-confirmation-iteration"
+
+
 def run_scenario(devices_spec, proc):
     """devices_spec: list of dicts for SimDevice; proc(xknx, bus) -> coroutine. Returns observation."""
     import xknx.management.management as mm
@@ -66,7 +76,7 @@ def run_scenario(devices_spec, proc):
         h = await XH.create(loop)
         h.connect()
         devs = [SimDevice(**d) for d in devices_spec]
-        bus = SimBus(h, devs)
+        bus = SimBus(h, devs, *LATENCIES[_LAT[0]])
         obs["initial"] = [d.state() for d in devs]
         clock = SimpleNamespace(time=lambda: 1000.0 + loop.time())
         with mock.patch.object(mm, "time", clock):
@@ -102,10 +112,10 @@ def _undeclared(ctx, tag, inp, obs) -> bool:
         exc = e["exception"]
         if isinstance(exc, ManagementConnectionError) and "never retrieved" in e["message"]:
             continue
-        ctx.fail(f"C44:{tag}:escaped:{type(exc).__name__}", inp, e["repr"] + " " + e["message"])
+        ctx.fail(_b(f"C44:{tag}:escaped:{type(exc).__name__}"), inp, e["repr"] + " " + e["message"])
     if obs["result"][0] == "exc":
         e = obs["result"][1]
-        ctx.fail(f"C44:{tag}:raised-undeclared:{exc_site(e)}", inp, repr(e))
+        ctx.fail(_b(f"C44:{tag}:raised-undeclared:{exc_site(e)}"), inp, repr(e))
         return True
     return False
 
@@ -126,7 +136,7 @@ def check_write(ctx, pop) -> str:
     from xknx.management.procedures import network
     from xknx.telegram import apci
 
-    inp = {"proc": "address_write", "pop": list(pop), "target": TARGET}
+    inp = {"proc": "address_write", "pop": list(pop), "target": TARGET, "latency": _LAT[0]}
 
     async def proc(xknx, bus):
         await network.nm_individual_address_write(xknx, TARGET)
@@ -148,15 +158,15 @@ def check_write(ctx, pop) -> str:
         label = "wrote"
         for w in writes:
             if str(w["telegram"].payload.address) != TARGET:
-                ctx.fail("C44:write:wrong-address", inp, f"IndividualAddressWrite({w['telegram'].payload.address}) while asked for {TARGET}; {detail}")
+                ctx.fail(_b("C44:write:wrong-address"), inp, f"IndividualAddressWrite({w['telegram'].payload.address}) while asked for {TARGET}; {detail}")
         if len(prog) > 1:
-            ctx.fail("C44:write:multiple-in-programming-mode", inp, f"IndividualAddressWrite broadcast with {len(prog)} devices in programming mode; {detail}")
+            ctx.fail(_b("C44:write:multiple-in-programming-mode"), inp, f"IndividualAddressWrite broadcast with {len(prog)} devices in programming mode; {detail}")
         elif not prog:
-            ctx.fail("C44:write:none-in-programming-mode", inp, f"IndividualAddressWrite broadcast with no device in programming mode; {detail}")
+            ctx.fail(_b("C44:write:none-in-programming-mode"), inp, f"IndividualAddressWrite broadcast with no device in programming mode; {detail}")
         else:
             holders = [d for d in init if d["address"] == TARGET and d["conn"] != "silent" and d["name"] != prog[0]["name"]]
             if holders:
-                ctx.fail("C44:write:address-in-use", inp, f"IndividualAddressWrite broadcast although {[d['name'] for d in holders]} already use(s) {TARGET}; {detail}")
+                ctx.fail(_b("C44:write:address-in-use"), inp, f"IndividualAddressWrite broadcast although {[d['name'] for d in holders]} already use(s) {TARGET}; {detail}")
     # no new collision among devices that can be seen point-to-point
     def coll(states):
         by = {}
@@ -169,20 +179,20 @@ def check_write(ctx, pop) -> str:
     for a, names in coll(obs["final"]):
         old = {n for aa, ns in before if aa == a for n in ns}
         if not names <= old:
-            ctx.fail("C44:collision-created", inp, f"after the procedure {sorted(names)} share {a}; {detail}")
+            ctx.fail(_b("C44:collision-created"), inp, f"after the procedure {sorted(names)} share {a}; {detail}")
     # Restart only to the target address, and only after programming (written, or the device already had the address)
     restarts = bus.sent(apci.Restart)
     for r in restarts:
         if str(r["telegram"].destination_address) != TARGET:
-            ctx.fail("C44:restart:wrong-destination", inp, f"Restart sent to {r['telegram'].destination_address}; {detail}")
+            ctx.fail(_b("C44:restart:wrong-destination"), inp, f"Restart sent to {r['telegram'].destination_address}; {detail}")
     if restarts:
         label += "+restart"
         ok = bool(writes) or (len(prog) == 1 and prog[0]["address"] == TARGET)
         if not ok:
-            ctx.fail("C44:restart:without-programming", inp, f"Restart sent although nothing was programmed; {detail}")
+            ctx.fail(_b("C44:restart:without-programming"), inp, f"Restart sent although nothing was programmed; {detail}")
     for ev in bus.log:
         if ev["dir"] == "event" and ev["event"] == "restart" and ev["address"] != TARGET:
-            ctx.fail("C44:restart:other-device-restarted", inp, f"{ev['device']} at {ev['address']} restarted; {detail}")
+            ctx.fail(_b("C44:restart:other-device-restarted"), inp, f"{ev['device']} at {ev['address']} restarted; {detail}")
     return label + ":" + obs["result"][0]
 
 
@@ -205,9 +215,9 @@ def check_read(ctx, pop, raise_if_multiple: bool) -> None:
     kind, val = obs["result"]
     if raise_if_multiple and len(prog) > 1:
         if kind != "mce":
-            ctx.fail("C44:address-read:multiple-not-reported", inp, f"{len(prog)} devices in programming mode, raise_if_multiple=True, returned {val}")
+            ctx.fail(_b("C44:address-read:multiple-not-reported"), inp, f"{len(prog)} devices in programming mode, raise_if_multiple=True, returned {val}")
     elif kind != "ok" or sorted(str(a) for a in val) != prog:
-        ctx.fail("C44:address-read:wrong-result", inp, f"devices in programming mode at {prog}, procedure gave {kind} {val}")
+        ctx.fail(_b("C44:address-read:wrong-result"), inp, f"devices in programming mode at {prog}, procedure gave {kind} {val}")
 
 
 # ---------------------------------------------------------------------------
@@ -247,14 +257,14 @@ def check_serial(ctx, pop, write: bool) -> None:
     detail = f"responses (source, serial) {[(r['src'], r['telegram'].payload.serial.hex()) for r in answers]}; result {kind} {val}"
     if not write:
         if kind == "ok" and val is not None and str(val) not in good:
-            ctx.fail("C44:serial-read:result-from-other-serial", inp, f"asked for {SER_ASKED.hex()}, returned {val}; {detail}")
+            ctx.fail(_b("C44:serial-read:result-from-other-serial"), inp, f"asked for {SER_ASKED.hex()}, returned {val}; {detail}")
     else:
         for w in bus.sent(apci.IndividualAddressSerialWrite):
             p = w["telegram"].payload
             if p.serial != SER_ASKED or str(p.address) != TARGET:
-                ctx.fail("C44:serial-write:wrong-broadcast", inp, f"IndividualAddressSerialWrite({p.serial.hex()}, {p.address})")
+                ctx.fail(_b("C44:serial-write:wrong-broadcast"), inp, f"IndividualAddressSerialWrite({p.serial.hex()}, {p.address})")
         if kind == "ok" and TARGET not in good:
-            ctx.fail("C44:serial-write:confirmed-by-other-serial", inp, f"write of {TARGET} to {SER_ASKED.hex()} reported success without a response carrying that serial from {TARGET}; {detail}")
+            ctx.fail(_b("C44:serial-write:confirmed-by-other-serial"), inp, f"write of {TARGET} to {SER_ASKED.hex()} reported success without a response carrying that serial from {TARGET}; {detail}")
 
 
 # ---------------------------------------------------------------------------
@@ -290,13 +300,13 @@ def check_authorize(ctx, free: int, client: int | None, conn_behaviour: str = "a
     kind, val = obs["result"]
     if kind == "ok":
         if not got:
-            ctx.fail("C44:authorize2:level-without-response", inp, f"returned {val} without any A_Authorize_Response")
+            ctx.fail(_b("C44:authorize2:level-without-response"), inp, f"returned {val} without any A_Authorize_Response")
         else:
             best = min(got[:2])  # level 0 = most access
             if val != best:
-                ctx.fail("C44:authorize2:not-the-better-level", inp, f"levels obtained {got}, returned {val}, better of the two is {best}")
+                ctx.fail(_b("C44:authorize2:not-the-better-level"), inp, f"levels obtained {got}, returned {val}, better of the two is {best}")
     elif conn_behaviour == "answers":
-        ctx.fail("C44:authorize2:failed-on-answering-device", inp, f"{val}; levels obtained {got}")
+        ctx.fail(_b("C44:authorize2:failed-on-answering-device"), inp, f"{val}; levels obtained {got}")
 
 
 # ---------------------------------------------------------------------------
@@ -311,17 +321,19 @@ def populations(codes, max_n):
         yield from itertools.combinations_with_replacement(codes, n)
 
 
-def _write_shard(ctx, pops) -> None:
+def _write_shard(ctx, pops, latency="20ms") -> None:
     n = nt = 0
+    _LAT[0] = latency
     for pop in pops:
         label = check_write(ctx, pop)
-        ctx.classes[label] += 1
+        ctx.classes[label + ("" if latency == "20ms" else "@same-iteration")] += 1
         n += 1
         if any(c[1] == "P" or c[0] == "t" for c in pop):
             nt += 1
         if n % 61 == 1:
             ctx.sample({"address_write": list(pop), "outcome": label})
-    ctx.bulk(n, nt, "address-write-populations")
+    _LAT[0] = "20ms"
+    ctx.bulk(n, nt, "address-write-populations" + ("" if latency == "20ms" else "@same-iteration"))
 
 
 def _read_shard(ctx, pops) -> None:
@@ -368,23 +380,28 @@ def _chunks(seq, k):
 
 def run(ctx) -> None:
     max_n = 3
-    pops = list(populations(DEV_CODES, max_n))
+    pops = list(populations(DEV_CODES, ctx.n(3, 4)))  # thorough: up to 4 devices for the address write
     # interleave so that shards have similar cost
     shards = [pops[i::32] for i in range(32)]
-    parallel(ctx, _write_shard, [(s,) for s in shards if s])
+    parallel(ctx, _write_shard, [(s, lat) for lat in LATENCIES for s in shards if s])
     rpops = list(populations([a + p + c for a in "ta" for p in "P-" for c in "AS"], max_n))
     parallel(ctx, _read_shard, [(rpops[i::8],) for i in range(8)])
     spops = list(populations(SER_CODES, max_n))
     parallel(ctx, _serial_shard, [(spops[i::8],) for i in range(8)])
     parallel(ctx, _auth_shard, [([f],) for f in range(16)])
     ctx.exhaustive = True
-    ctx.notes["populations"] = {"address_write": len(pops), "address_read": 2 * len(rpops), "serial": 2 * len(spops), "authorize2": 16 * 19}
+    ctx.notes["max_devices_address_write"] = ctx.n(3, 4)
+    ctx.notes["populations"] = {"address_write": 2 * len(pops), "address_read": 2 * len(rpops), "serial": 2 * len(spops), "authorize2": 16 * 19}
 
 
 def replay(ctx, case) -> None:
     p = case.get("proc")
     if p == "address_write":
-        check_write(ctx, tuple(case["pop"]))
+        _LAT[0] = case.get("latency", "20ms")
+        try:
+            check_write(ctx, tuple(case["pop"]))
+        finally:
+            _LAT[0] = "20ms"
     elif p == "address_read":
         check_read(ctx, tuple(case["pop"]), bool(case.get("raise_if_multiple")))
     elif p in ("serial_read", "serial_write"):
